@@ -271,16 +271,10 @@ def check_trates(ctx, cc):
     n, ns = model.n, model.ns
     N = n * ns
     chans = Channels(model, flags)
-    x0 = model.state()
-    dx0, sc0 = model.derivative(x0, mask=flags)
-    best = None
-    for xv, s_ in zip(x0, sc0):
-        if s_ > 0:
-            r_ = max(abs(xv), 1.0) / s_
-            best = r_ if best is None else min(best, r_)
-    # a time step that changes no entry by more than ~2 % per step (a coarser one makes fixed-step tau-leap
+    from vlib.ratelaw import tame_dt
+    # a time step that changes no entry by more than ~1 % per step (a coarser one makes fixed-step tau-leap
     # populations oscillate and explode, which is a user error rather than a valid script)
-    dt = 10.0 ** math.floor(math.log10(0.01 * best)) if best else 1e-3
+    dt = tame_dt(model, flags, frac=0.01)
     traj, done, complete = sut_call("tau-leap run", run_engine, c, "tauleap", cc["steps"], dt)
     t, states = to_int_states(traj, N)
     K = len(states) - 1
